@@ -932,12 +932,12 @@ func (hash *SexpHash) SexpString(ps *PrintState) string {
 		}
 	}
 	if displayHashInCurly {
-		if len(hash.Map) > 0 {
+		if onKey > 0 {
 			return str[:len(str)-1] + prettyEnd + origIndInner + "}"
 		}
 		return str + prettyEnd + origIndInner + "}"
 	}
-	if len(hash.Map) > 0 {
+	if onKey > 0 {
 		return str[:len(str)-1] + ")" + prettyEnd
 	}
 	return str + ")" + prettyEnd
